@@ -20,6 +20,12 @@ try:
     STORAGE_GEN4_STATUS = translate_c17_r4.generate(core.REPO, os.path.join(core.COQ, "gen"))
 except Exception as _ex:
     STORAGE_GEN4_STATUS = "unparsed generator-failed: %s" % str(_ex)[:200]
+# round 5: coq/gen/StorageGen5.v (the parser beyond 256 groups, the size tests / array lengths of the printers)
+try:
+    import translate_c17_r5
+    STORAGE_GEN5_STATUS = translate_c17_r5.generate(core.REPO, os.path.join(core.COQ, "gen"))
+except Exception as _ex:
+    STORAGE_GEN5_STATUS = "unparsed generator-failed: %s" % str(_ex)[:200]
 
 
 MIRI_BUDGET_S = 1500   # wall-clock budget of the Miri support run (thorough tier only)
@@ -122,9 +128,10 @@ def miri_support(seed, exes):
 def extra_phase(tier, seed, exes, oracle):
     word = STORAGE_GEN_STATUS.split(" ", 1)[0]
     word4 = STORAGE_GEN4_STATUS.split(" ", 1)[0]
+    word5 = STORAGE_GEN5_STATUS.split(" ", 1)[0]
     res = {
         "evaluations": 0,
-        "hist": {"translator_c17:StorageGen:" + word: 1, "translator_c17:StorageGen4:" + word4: 1},
+        "hist": {"translator_c17:StorageGen:" + word: 1, "translator_c17:StorageGen4:" + word4: 1, "translator_c17:StorageGen5:" + word5: 1},
         "nontrivial": [],
         "samples": [{"fragment": "coq/gen/StorageGen.v (tools/translate_c17_r3.py from integer/src/buffer.rs, repr.rs, add_ops.rs, mul_ops.rs, "
                                  "pow.rs, shift_ops.rs, mul/mod.rs, mul/karatsuba.rs, mul/toom_3.rs, sqr/mod.rs)",
@@ -137,6 +144,12 @@ def extra_phase(tier, seed, exes, oracle):
                      "status": STORAGE_GEN4_STATUS,
                      "tied_by": "the machine of StorageOps3.v and the scratch requirements of ScratchOps3.v are stated over the generated definitions "
                                 "(C17_sqrt_*, C17_ring_*, C17_parse_*, C17_chunks_*, C17_scratch_sqrt / _ring_mul)" if word4 == "ok"
+                                else "correspondence run only (source not parsed; previous copy marked STALE)"},
+                    {"fragment": "coq/gen/StorageGen5.v (tools/translate_c17_r5.py from integer/src/parse/non_power_two.rs, fmt/non_power_two.rs, "
+                                 "fmt/power_two.rs, radix.rs)",
+                     "status": STORAGE_GEN5_STATUS,
+                     "tied_by": "the machine of StorageOps5.v (parse of texts of any length) and the printer models of FmtBounds5.v are stated over the "
+                                "generated definitions (C17_parse_*, C17_fmt_*, C17_step5_storage_ops, C17_histories5_*)" if word5 == "ok"
                                 else "correspondence run only (source not parsed; previous copy marked STALE)"}],
         "failures": [],
     }
@@ -557,7 +570,25 @@ def gen_boundary(rng, k=None):
     fw = lambda slot, x: "fw %x %s 0" % (slot, hx(x))
     dw = lambda slot, x: "dw %x %s 0" % (slot, hx(x))
     if k is None:
-        k = rng.below(36)
+        k = rng.below(37)
+    if k == 36:
+        # round 5: texts beyond 256 groups in a radix that is not a power of two (parse_large: the vector of radix powers, the
+        # divide-and-conquer recursion): lengths at chunk_bytes << k  -1 / 0 / +1 for k = 0, 1, 2, one group / one digit more, an invalid
+        # digit in the first / last / a middle chunk (the `?` exits drop the partial results and the powers), underscores
+        radix = rng.choice([10, 10, 3, 7, 36, 5, 11])
+        dpw = 1
+        while radix ** (dpw + 1) < 1 << 64:
+            dpw += 1
+        cb = 256 * dpw
+        if rng.chance(1, 7):
+            nd = rng.choice([4 * cb, 4 * cb + 1, 4 * cb + dpw, 5 * cb + 3])
+        else:
+            nd = rng.choice([cb + 1, cb + 1, cb + dpw, cb + dpw + 1, 2 * cb - 1, 2 * cb, 2 * cb + 1, 2 * cb + dpw + 1, 3 * cb - 1, 3 * cb, 3 * cb + 1,
+                             cb + rng.range(1, cb), 2 * cb + rng.range(1, cb)])
+        st = ["pstr %x %x %s" % (t, radix, gen_text(rng, radix, nd, rng.choice([0, 0, 1, 2, 3, 4, 5, 5, 6])))]
+        if nd > 3 * cb + 1 or rng.chance(1, 3):
+            st.append("dr %x" % t)
+        return st
     if k == 34:
         # ALL-ZERO raw results on the heap path (Buffer::pop_zeros scans down to the first word of the block): a - a, a ^ a, a + (-a),
         # a % a, from_words / from_le_bytes of zeros only, x & !x (negative operand), a shift that leaves zero words only; capacities of
